@@ -58,13 +58,15 @@ class C06(Prop):
     PARALLEL = True
     USES_IMPL = True
     CASE_TIMEOUT = 60
+    loop_cov = __import__("collections").Counter()
     rule = ("random full-field programs with setup operands computed by chains of arith ops from induction variables and outer values, "
             "lb != 0 and step != 1 executions, several launches per body; traced and deduplicated by the real passes, then "
             "accfg-config-overlap with every rewrite step logged; non-trivial = at least one overlap rewrite happened")
     trusted_base = [
-        "the two overlap patterns are NOT modelled as functions: the check validates every real rewrite step semantically "
-        "(CSR machine before/after, SSA availability) and compares infer_state_of with the model's facts on every intermediate IR; "
-        "the Lean theorems are about the semantic core (a setup commutes with code that neither sets up nor launches its accelerator)",
+        "both overlap patterns are modelled as functions at a position (applyBlockMove, applyLoopOverlap) and every real rewrite step is "
+        "replayed through them; block-level steps are all certified (block_move_preserves), loop-level steps are certified by "
+        "loop_overlap_preserves when its decidable hypotheses hold on the step (counted in coverage.extra) and validated semantically "
+        "(CSR machine before/after, SSA availability) otherwise; programs with loop-carried data values are oracle-only",
     ]
     assumptions = ["as C07"]
 
@@ -145,7 +147,8 @@ class C06(Prop):
             reqs.append({"fn": "c06.move", "args": {"path": m["path"], "flags": m["flags"], "body": before["body"]}})
         for m in impl_out.get("loops", []):
             before = impl_out["progs"][m["step"]]["prog"]
-            reqs.append({"fn": "c06.loop", "args": {"path": m["path"], "j": m["j"], "fresh": before["nvars"] + 1000, "body": before["body"]}})
+            reqs.append({"fn": "c06.loop", "args": {"path": m["path"], "j": m["j"], "fresh": before["nvars"] + 1000, "body": before["body"],
+                                                    "fields": before["fields"]}})
         return reqs
 
     def model(self, case, answers, impl_out):
@@ -190,7 +193,16 @@ class C06(Prop):
             real_after = impl_out["progs"][m["step"] + 1]["prog"]["body"]
             if ac.canon_ast(a["ok"]["after"]) != ac.canon_ast(real_after):
                 return {"model_error": f"loop-level overlap step {m['step']}: the model rule does not reproduce the real rewrite", "loop": m}
+            # is this step covered by C06.loop_overlap_preserves (all hypotheses evaluated by the driver)?
+            self.loop_cov["loop_steps"] += 1
+            self.loop_cov["covered_by_loop_overlap_preserves" if a["ok"]["covered"] else "not_covered:" + a["ok"]["why"]] += 1
         return dict(impl_out, progs=progs)
+
+    def extra_coverage(self):
+        return {"loop_level_steps": dict(self.loop_cov),
+                "note": "loop-level steps replayed through the model rule; 'covered' = every hypothesis of loop_overlap_preserves holds; "
+                        "not_covered:launch-total = a launch after the copies depends on a rotated field (class of D26 / dedup-dropped "
+                        "fields), not_covered:side = loopSide fails (e.g. non-pure statement in front of the setup)"}
 
     def oracle(self, case, impl_out):
         if case["kind"] == "d26_literal":
